@@ -626,4 +626,109 @@ def C20(ctx):
     sync_family(ctx, families.futures_family(ctx.tier, ctx.seed), waive=False)
 
 
-CHECKS = {"C20": C20, "C17": C17, "C18": C18, "C12": C12, "C19": C19, "C15": C15, "C13": C13, "C14": C14, "C10": C10, "C11": C11, "C01": C01, "C04": C04, "C05": C05, "C07": C07, "C08": C08, "C09": C09, "C02": C02, "C03": C03}
+PROBE = None
+
+
+def probe_program():
+    return dsl.normalize(families.wrap([[dsl.st("y", 1), dsl.st("x", 1, "rel")], [dsl.ld("x", "acq"), dsl.ld("y")]], ["x"], name="probe-MP"))
+
+
+def C06(ctx):
+    import loomrun
+    ctx.assumptions += ["crash points: a `panic` instruction at every instruction index of every thread of the base programs, "
+                        "also guarded by a previously loaded value; TLC (LoomSem, Panic action) says for each whether a failure is reachable",
+                        "observation is process-level: the driver child must survive; exit by signal = abort, no progress = hang",
+                        "'a later model run in the same process starts clean': a probe program runs in the same driver process after "
+                        "the crashing ones and must reproduce its solo result (iterations, outcomes, path snapshots)"]
+    progs = families.crash_points(ctx.tier, ctx.seed)
+    lower, upper = core.lower_upper(ctx, progs, families.has_sc_access, coverage=True)
+    probe = probe_program()
+    solo = loomrun.run_items(os.path.join(ctx.work, "solo"), [{"prog": probe, "cfg": {"want_paths": True, "want_seq": True}}], jobs=1, tag="solo")[0]
+    jobs = ctx.jobs
+    n = ((len(progs) + jobs - 1) // jobs) * jobs
+    pad = [probe] * (n - len(progs))
+    items = [{"prog": p, "cfg": {"iter_cap": 200000}} for p in progs + pad] + \
+            [{"prog": probe, "cfg": {"want_paths": True, "want_seq": True}} for _ in range(jobs)]
+    R = loomrun.run_items(os.path.join(ctx.work, "crash"), items, jobs=jobs, tag="crash", per_prog_timeout=120)
+    nontriv = 0
+    for p, lo, up, r in zip(progs, lower, upper, R):
+        if core.compare_sandwich(ctx, p, lo, up, r, want=("fails", "sound")):
+            nontriv += 1
+        if r["end"] == "panic" and not r["msg"].startswith("verif-panic"):
+            ctx.violation("wrong-panic-message", p, r["msg"][:60], {})
+        core.sample(ctx, p, lo, up, r)
+    for k, r in enumerate(R[n:]):
+        if r["end"] != solo["end"] or r["iters"] != solo["iters"] or r["outcomes"] != solo["outcomes"] or \
+                r["hook_events"] != solo["hook_events"] or r["seq"] != solo["seq"]:
+            ctx.violation("later-run-not-clean", probe, {"shard": k, "end": r["end"], "iters": r["iters"], "solo_iters": solo["iters"]}, {"msg": r["msg"]})
+    ends = {}
+    for r in R[:len(progs)]:
+        ends[r["end"]] = ends.get(r["end"], 0) + 1
+    ctx.cov["loom_ends"] = ends
+    ctx.cov["probe_runs_after_crashes"] = jobs
+    ctx.cov["programs"] += len(progs)
+    ctx.cov["evaluations"] += len(progs)
+    ctx.cov["distinct_nontrivial"] += nontriv
+
+
+def C16(ctx):
+    import loomrun, pathcheck
+    ctx.assumptions += ["every iteration of every run is validated by LoomSemTrace from the spec's Init (thread ids from main, fresh "
+                        "objects, empty clocks): stale state would show up as an unexplained event or value",
+                        "the sequence of (path snapshot, outcome) of a program must be identical alone in a fresh process, after other "
+                        "(also failing) models in the same process, and alongside another model on a second OS thread",
+                        "cross-OS-thread interference is sampled by repeated concurrent runs, not enumerated"]
+    A, B = families.iso_base()
+    cfgA = {"want_paths": True, "want_seq": True, "trace_cap": 40, "iter_cap": 50000}
+    cfgB = {"iter_cap": 50000}
+    ref = loomrun.run_items(os.path.join(ctx.work, "solo"), [{"prog": a, "cfg": cfgA} for a in A], jobs=len(A), tag="solo")   # one process each
+    for a, r in zip(A, ref):
+        if r["end"] != "ok":
+            raise tlc.ToolError(f"isolation base program does not complete: {a.get('name')} {r['end']} {r['msg']}")
+    core.validate_traces(ctx, A, ref, label="trace_solo")
+
+    def same(x, y):
+        return x["end"] == y["end"] and x["iters"] == y["iters"] and x["seq"] == y["seq"] and x["seq_keys"] == y["seq_keys"] \
+            and x["hook_events"] == y["hook_events"] and x["outcomes"] == y["outcomes"]
+    # B then A in one process (also: many models before A)
+    items, meta = [], []
+    for bi, b in enumerate(B):
+        for ai, a in enumerate(A):
+            items += [{"prog": b, "cfg": cfgB}, {"prog": a, "cfg": cfgA}]
+            meta.append((bi, ai))
+    R = loomrun.run_items(os.path.join(ctx.work, "seq"), items, jobs=ctx.jobs, tag="seq", extra_args=["--group", "2"])
+    cmp_runs = 0
+    for k, (bi, ai) in enumerate(meta):
+        rb, ra = R[2 * k], R[2 * k + 1]
+        cmp_runs += 1
+        if rb["end"].startswith("abort") or rb["end"] == "hang":
+            ctx.violation("abort", B[bi], rb["end"], {"msg": rb["msg"]})
+        if not same(ra, ref[ai]):
+            ctx.violation("depends-on-earlier-model", A[ai], {"after": B[bi].get("name"), "end": ra["end"], "iters": ra["iters"],
+                                                              "solo_iters": ref[ai]["iters"]}, {"msg": ra["msg"]})
+    core.validate_traces(ctx, [it["prog"] for it in items], R, label="trace_seq")
+    # A alongside B (and A alongside A) on two OS threads
+    reps = 2 if ctx.tier == "quick" else 20
+    citems, cmeta = [], []
+    for rep in range(reps):
+        for ai, a in enumerate(A):
+            for other in ([A[ai]] + [B[(ai + rep) % len(B)], A[(ai + 1 + rep) % len(A)]]):
+                citems += [{"prog": a, "cfg": cfgA}, {"prog": other, "cfg": cfgA if other in A else cfgB}]
+                cmeta.append((ai, other.get("name")))
+    CR = loomrun.run_items(os.path.join(ctx.work, "conc"), citems, jobs=ctx.jobs, tag="conc", extra_args=["--pairs"])
+    for k, (ai, oname) in enumerate(cmeta):
+        ra = CR[2 * k]
+        cmp_runs += 1
+        if not same(ra, ref[ai]):
+            ctx.violation("depends-on-concurrent-model", A[ai], {"alongside": oname, "end": ra["end"], "iters": ra["iters"],
+                                                                 "solo_iters": ref[ai]["iters"]}, {"msg": ra["msg"]})
+        if oname == A[ai].get("name") and not same(CR[2 * k + 1], ref[ai]):
+            ctx.violation("depends-on-concurrent-model", A[ai], {"alongside": "itself (second copy)", "end": CR[2 * k + 1]["end"]}, {})
+    ctx.cov["programs"] += len(A) + len(B)
+    ctx.cov["evaluations"] += cmp_runs
+    ctx.cov["distinct_nontrivial"] += cmp_runs
+    ctx.cov["rule"] = "each comparison of a base program's full (path, outcome) sequence against its fresh-process run, after / alongside a different model"
+    ctx.cov["samples"].append({"program": dsl.pretty(A[0]), "solo_iterations": ref[0]["iters"], "compared_after": [b.get("name") for b in B]})
+
+
+CHECKS = {"C16": C16, "C06": C06, "C20": C20, "C17": C17, "C18": C18, "C12": C12, "C19": C19, "C15": C15, "C13": C13, "C14": C14, "C10": C10, "C11": C11, "C01": C01, "C04": C04, "C05": C05, "C07": C07, "C08": C08, "C09": C09, "C02": C02, "C03": C03}
